@@ -156,6 +156,7 @@ pub struct SegGen {
     /// probability (percent) that an insert repeats the previous range (long bucket lists)
     pub hot_pct: u64,
     pub last_range: Option<(i64, i64)>,
+    pub pending: std::collections::VecDeque<Op>,
 }
 
 pub struct SegWorld {
@@ -191,8 +192,9 @@ impl SegWorld {
                 generated: 0,
                 hot_pct: *r.pick(&[0, 0, 0, 30, 80, 95]),
                 last_range: None,
+                pending: std::collections::VecDeque::new(),
             },
-            None => SegGen { w: [10, 10, 3, 1, 0, 1], exp_w: [1, 1, 2, 1, 1], coord_w: [1, 1, 2, 1, 1], cancel_pct: 10, horizon: 10, forced_clear_at: None, generated: 0, hot_pct: 0, last_range: None },
+            None => SegGen { w: [10, 10, 3, 1, 0, 1], exp_w: [1, 1, 2, 1, 1], coord_w: [1, 1, 2, 1, 1], cancel_pct: 10, horizon: 10, forced_clear_at: None, generated: 0, hot_pct: 0, last_range: None, pending: std::collections::VecDeque::new() },
         };
         let tmax = if cfg.key_ty == 1 { 255 } else { i32::MAX };
         Ok(SegWorld { now: if cfg.key_ty == 1 { cfg.t0.clamp(0, tmax) } else { cfg.t0 }, tree, twin: None, items: Vec::new(), next_id: 1, scale, tmax, gen, cfg })
@@ -481,6 +483,7 @@ impl World for SegWorld {
             Op::SIns { a, b, exp } => lo <= *a && a <= b && *b <= hi && (self.cfg.key_ty != 1 || (0..=255).contains(exp)),
             Op::SQuery { a, b, take } => lo <= *a && a <= b && *b <= hi && *take >= -4,
             Op::SClear { .. } => true,
+            Op::SBulk { a, b, n, exp } => lo <= *a && a <= b && *b <= hi && *n > 0 && *n <= 200_000 && (self.cfg.key_ty != 1 || (0..=255).contains(exp)),
             _ => false,
         }
     }
@@ -532,6 +535,41 @@ impl World for SegWorld {
                     self.check_masks(ctx, "SIns")?;
                 }
             }
+            Op::SBulk { a, b, n, exp } => {
+                ctx.stats.bump("seg.bulk_of_copies_in_one_range");
+                let first = self.next_id;
+                self.next_id += n as u32;
+                let mut cb_total = 0u32;
+                let mut i0 = 0i32;
+                while i0 < n {
+                    let i1 = (i0 + 2000).min(n);
+                    if let Some(tw) = self.twin.as_mut() {
+                        let _ = call(ctx, &cfg, "SegExpTree(twin)", "insert_by_range (bulk)", "SBulk", false, None, None, || {
+                            for i in i0..i1 {
+                                tw.insert(a, b, SegVal { id: first + i as u32, exp });
+                            }
+                        })?;
+                    }
+                    let tree = &mut self.tree;
+                    let (_, cb) = call(ctx, &cfg, "SegExpTree", "insert_by_range (bulk)", "SBulk", false, None, None, || {
+                        for i in i0..i1 {
+                            tree.insert(a, b, SegVal { id: first + i as u32, exp });
+                        }
+                    })?;
+                    cb_total = cb_total.saturating_add(cb);
+                    i0 = i1;
+                }
+                // no crash points inside a bulk build: it only sets the stage
+                ctx.cb_counts.push(if cfg.has(O_TORN) { 0 } else { cb_total });
+                let (blo, bhi) = (self.bucket(a), self.bucket(b));
+                for i in 0..n {
+                    self.items.push(SItem { id: first + i as u32, exp, blo, bhi, a, b });
+                }
+                self.gen.last_range = Some((a, b));
+                if cfg.has(O_TORN) {
+                    self.check_masks(ctx, "SBulk")?;
+                }
+            }
             Op::SQuery { a, b, take } => self.step_query(step, a, b, take, ctx)?,
             Op::SClear { restart } => {
                 let tree = &mut self.tree;
@@ -558,9 +596,31 @@ impl World for SegWorld {
 
     fn gen(&mut self, r: &mut Rng, _ctx: &mut RunCtx, _remaining: usize) -> Op {
         self.gen.generated += 1;
+        if self.gen.generated == 1 && self.items.len() >= 64 {
+            // the run started with a bulk of copies in one range: values elsewhere (so that buckets
+            // after the huge one are occupied), a value expiring exactly at the next query time,
+            // the clock moved past the bulk's expiration, then whole-domain queries
+            let (lo, hi) = (self.cfg.seg_lo, self.cfg.seg_hi);
+            let t = self.now;
+            let soon = t.saturating_add(2).min(self.tmax);
+            self.gen.pending.push_back(Op::SIns { a: hi, b: hi, exp: self.tmax });
+            self.gen.pending.push_back(Op::SIns { a: lo, b: lo, exp: soon });
+            self.gen.pending.push_back(Op::SIns { a: lo, b: hi, exp: soon });
+            if r.chance(1, 2) {
+                self.gen.pending.push_back(Op::SQuery { a: lo, b: hi, take: 3 });
+            }
+            self.gen.pending.push_back(Op::Tick { dt: 2 });
+            self.gen.pending.push_back(Op::SQuery { a: lo, b: hi, take: *r.pick(&[-1, -1, -2, -3]) });
+            self.gen.pending.push_back(Op::SQuery { a: lo, b: hi, take: -1 });
+        }
         if self.gen.forced_clear_at == Some(self.gen.generated - 1) {
             let restart = if r.chance(1, 2) && self.now > 0 { r.range(0, self.now as i64 - 1) as i32 } else { -1 };
             return Op::SClear { restart };
+        }
+        while let Some(op) = self.gen.pending.pop_front() {
+            if self.legal(&op) {
+                return op;
+            }
         }
         let which = r.weighted(&self.gen.w.clone());
         match which {
